@@ -309,6 +309,10 @@ def ref_step(desc, vals, pars, opts=None):
                 q0 = l["beta"] * Qn[up]
             else:
                 q0 = Qn[up]
+        if desc.get("node_off", {}).get(up) is not None:
+            # user-defined node kind: an unmodelled exit at the node takes that share of whatever a leaving link would get
+            q0 = (1.0 - desc["node_off"][up]) * q0
+            br.append(("user.node", "off-ramp-share"))
         if Vn[up] is Singular:
             raise Singular("merge with zero total inflow")
         v0 = v[0] if Vn[up] is None else Vn[up]
